@@ -297,6 +297,12 @@ def generate(tier):
                        '        r.ck(format!("{:#?}", a) == format!("{:#?}", ta), 1, &|| format!("value #{}: pretty output differs from #[derive(Debug)]: {:?} vs {:?}", i, format!("{:#?}", a), format!("{:#?}", ta)));\n'
                        '    }\n'):
         add(c)
+    for c in zoo_cases('C06|zm', 'Debug', 'Clone', 'Debug, Clone',
+                       '    for (i, (a, ta)) in vs.iter().enumerate() {\n'
+                       '        r.ck(format!("{:?}", a) == format!("{:?}", ta), 0, &|| format!("value #{}: {:?} differs from #[derive(Debug)] {:?}", i, format!("{:?}", a), format!("{:?}", ta)));\n'
+                       '        r.ck(format!("{:#?}", a) == format!("{:#?}", ta), 1, &|| format!("value #{}: pretty output differs from #[derive(Debug)]: {:?} vs {:?}", i, format!("{:#?}", a), format!("{:#?}", ta)));\n'
+                       '    }\n', z_attr='Debug(method(zoo_m_fmt))'):
+        add(c)
     # generics around the method wrapper, attribute contexts
     for fl in (S.Fields('t', 2), S.Fields('n', 2)):
         for assign in ('ms', 'sm', 'mm', 'xs' if fl.style == 'n' else 'mi', 'im'):
